@@ -13,7 +13,7 @@ TRUSTED = ['chain rule: cost = TC(T(x)) + WC(W(x)) + Q(C(theta(x)), T(x)) + rho 
 ASSUMPTIONS = ['N <= 2^22, 1 <= K <= 2^22; caller-supplied workspace; three-cost overload']
 UNDECIDED_CLAUSES = ['destination offsets of the spatial write-back are covered by the layout contract (C09) and the bounds obligations only: that block k of the decision '
                      'vector receives exactly backwardGrad of point k is proved for the arguments handed to the map, not restated cell by cell for the result',
-                     'cubic splines: C05/C06 parts not under contract']
+                     ]
 
 
 def tasks(tier):
